@@ -95,8 +95,8 @@ class AnnotationCollection(AbstractFeatureIntervalCollection):
         parent_or_seq_chunk_parent: Optional[Parent] = None,
     ):
 
-        self.feature_collections = feature_collections if feature_collections else []
-        self.genes = genes if genes else []
+        self.feature_collections = list(feature_collections) if feature_collections else []
+        self.genes = list(genes) if genes else []
         self.variant_collections = variant_collections if variant_collections else []
         self.sequence_name = sequence_name
         self.sequence_guid = sequence_guid
